@@ -1052,3 +1052,14 @@ RECIPES += [
 
 ''', "mkdofpv: inside a `with` block, the clamp dropped"),
 ]
+
+RECIPES += [
+    ("C18", "neutral", [], N2P, _PART, '''        setpv = slice(None) if nasset == "p" else mksetpv(uset, "p", nasset)
+        index = uset.index[setpv]
+        uset_set = index.get_level_values("id") * 10 + index.get_level_values("dof")
+''', "mkdofpv: the selection is slice(None) for the p-set, the partition vector otherwise"),
+    ("C18", "break", ["C18-R3"], N2P, _PART, '''        setpv = slice(None) if nasset != "p" else mksetpv(uset, "p", nasset)
+        index = uset.index[setpv]
+        uset_set = index.get_level_values("id") * 10 + index.get_level_values("dof")
+''', "mkdofpv: slice(None) for every set but the p-set (the table is never restricted)"),
+]
